@@ -265,7 +265,7 @@ def mpdm_observables(led, name, n, seed, q, cplx, psi, H, mpos, dims, rng):
     for kick in range(2):
         if kick:
             A = mpos[int(rng.integers(len(mpos)))].apply(A)     # product operator (flips / diagonals): not Hermitian in general
-            if cplx:
+            if cplx and np.abs(S.dense(A)).max() > 1e-10:      # (the library refuses to scale the zero operator: precondition)
                 A = A.scale(0.6 + 0.8j)
         for gauge in ("fresh", "cano"):
             a = A.copy()
